@@ -304,6 +304,91 @@ fn pre_scenarios() -> Vec<Pre> {
             let (reached, bfin) = interleave("rdf.insert.after_primary", move || { s1.insert(t1); }, move || { s2.insert(t2); });
             finish(reached, bfin, walk_rdf(&st))
         } },
+        Pre { name: "rdf_insert||rdf_insert(check gap)", site: "rdf.insert.after_check", run: || {
+            // A has passed the unlocked "already there?" check and parks; B inserts the same triple
+            let st = Arc::new(RdfStore::new());
+            let t = universe()[0].clone();
+            let (s1, s2, t1, t2) = (Arc::clone(&st), Arc::clone(&st), t.clone(), t.clone());
+            let acks = Arc::new(AtomicU64::new(0));
+            let (a1, a2) = (Arc::clone(&acks), Arc::clone(&acks));
+            let (reached, bfin) = interleave("rdf.insert.after_check", move || { if s1.insert(t1) { a1.fetch_add(1, Ordering::SeqCst); } }, move || { if s2.insert(t2) { a2.fetch_add(1, Ordering::SeqCst); } });
+            let mut bad = walk_rdf(&st);
+            if acks.load(Ordering::SeqCst) != 1 {
+                bad.push(format!("same_triple_acknowledged_as_new_{}_times", acks.load(Ordering::SeqCst)));
+            }
+            finish(reached, bfin, bad)
+        } },
+        Pre { name: "rdf_insert||rdf_remove(check gap)", site: "rdf.insert.after_check", run: || {
+            let st = Arc::new(RdfStore::new());
+            let t = universe()[0].clone();
+            st.insert(universe()[1].clone());
+            let (s1, s2, t1, t2) = (Arc::clone(&st), Arc::clone(&st), t.clone(), t.clone());
+            let (reached, bfin) = interleave("rdf.insert.after_check", move || { s1.insert(t1); }, move || { s2.insert(t2.clone()); s2.remove(&t2); });
+            finish(reached, bfin, walk_rdf(&st))
+        } },
+        Pre { name: "create_node(new label)||create_node(new label)", site: "store.label_id.after_fast_path", run: || {
+            let st = Arc::new(LpgStore::new());
+            let (s1, s2) = (Arc::clone(&st), Arc::clone(&st));
+            let (reached, bfin) = interleave("store.label_id.after_fast_path", move || { s1.create_node(&["Z"]); }, move || { s2.create_node(&["Z"]); s2.create_node(&["Y"]); });
+            let mut bad = walk_lpg(&st, &["Z", "Y"], &[]);
+            if st.nodes_by_label("Z").len() != 2 || st.nodes_by_label("Y").len() != 1 {
+                bad.push("label_lookup_misses_acknowledged_node".to_string());
+            }
+            finish(reached, bfin, bad)
+        } },
+        Pre { name: "create_edge(new type)||create_edge(new type)", site: "store.edge_type_id.after_fast_path", run: || {
+            let st = Arc::new(LpgStore::new());
+            let a = st.create_node(&["A"]);
+            let b = st.create_node(&["A"]);
+            let (s1, s2) = (Arc::clone(&st), Arc::clone(&st));
+            let (reached, bfin) = interleave("store.edge_type_id.after_fast_path", move || { s1.create_edge(a, b, "T"); }, move || { s2.create_edge(b, a, "T"); s2.create_edge(b, a, "U"); });
+            let mut bad = walk_lpg(&st, &["A"], &[]);
+            let types: Vec<String> = st.all_edges().map(|e| e.edge_type.to_string()).collect();
+            if types.iter().filter(|t| t.as_str() == "T").count() != 2 || types.iter().filter(|t| t.as_str() == "U").count() != 1 {
+                bad.push("edge_type_of_acknowledged_edge_wrong".to_string());
+            }
+            if st.edges_with_type("T").count() != 2 || st.edges_with_type("U").count() != 1 {
+                bad.push("edges_with_type_disagrees_with_edges".to_string());
+            }
+            finish(reached, bfin, bad)
+        } },
+        Pre { name: "stats_refresh||create_node", site: "store.stats.after_counts", run: || {
+            // A refreshes the statistics and parks after it has taken the counts; B mutates. The
+            // refresh A publishes is stale by one node - legitimate - but the store must still know
+            // that its statistics are stale: the next refresh has to bring them up to date.
+            let st = Arc::new(LpgStore::new());
+            st.create_node(&["A"]);
+            let (s1, s2) = (Arc::clone(&st), Arc::clone(&st));
+            let (reached, bfin) = interleave("store.stats.after_counts", move || { s1.ensure_statistics_fresh(); }, move || { let n = s2.create_node(&["A"]); let m = s2.create_node(&["A"]); s2.create_edge(n, m, "R"); });
+            st.ensure_statistics_fresh();
+            let stats = st.statistics();
+            let mut bad = walk_lpg(&st, &["A"], &[]);
+            if stats.total_nodes != st.node_count() as u64 || stats.total_edges != st.edge_count() as u64 {
+                bad.push("statistics_stale_after_refresh".to_string());
+            }
+            finish(reached, bfin, bad)
+        } },
+        Pre { name: "catalog_get_or_create||catalog_get_or_create", site: "catalog.label.after_fast_path", run: || {
+            let c = Arc::new(grafeo_engine::Catalog::new());
+            let (c1, c2) = (Arc::clone(&c), Arc::clone(&c));
+            let ids: Arc<parking_lot::Mutex<Vec<u32>>> = Arc::new(parking_lot::Mutex::new(Vec::new()));
+            let (i1, i2) = (Arc::clone(&ids), Arc::clone(&ids));
+            let (reached, bfin) = interleave("catalog.label.after_fast_path", move || { let id = c1.get_or_create_label("L"); i1.lock().push(id.as_u32()); }, move || { let id = c2.get_or_create_label("L"); i2.lock().push(id.as_u32()); let other = c2.get_or_create_label("M"); i2.lock().push(1000 + other.as_u32()); });
+            let v = ids.lock().clone();
+            let mut bad = Vec::new();
+            let l: Vec<u32> = v.iter().copied().filter(|x| *x < 1000).collect();
+            let m: Vec<u32> = v.iter().copied().filter(|x| *x >= 1000).map(|x| x - 1000).collect();
+            if l.len() != 2 || l[0] != l[1] {
+                bad.push("one_name_two_ids".to_string());
+            }
+            if m.len() == 1 && l.contains(&m[0]) {
+                bad.push("two_names_one_id".to_string());
+            }
+            if c.get_label_id("L").map(|x| x.as_u32()) != l.first().copied() || c.get_label_name(grafeo_common::types::LabelId::new(*l.first().unwrap_or(&0))).as_deref() != Some("L") {
+                bad.push("catalog_lookup_disagrees_with_returned_id".to_string());
+            }
+            finish(reached, bfin, bad)
+        } },
         Pre { name: "buffer_allocate||buffer_allocate", site: "buf.try_allocate.between_check_and_add", run: || {
             let bm = BufferManager::with_budget(1000);
             // the hard limit is a fraction of the budget (public in the config)
